@@ -119,6 +119,9 @@ def make_template(case):
     params = _Params()
     pt = build_pt(case['pt'], params)
     kwargs = {'parameters': params.as_parameters()}
+    for name, (val, style) in (case.get('extra') or {}).items():
+        # extra top-level parameters, in particular ones named like a loop index (the index shadows them)
+        kwargs['parameters'][name] = int(float(val)) if style == 'pi' else float(val)
     gt = case.get('gt')
     if gt:
         from qupulse.program.transformation import ScalingTransformation, OffsetTransformation
@@ -318,6 +321,17 @@ def res_collision(nodes) -> bool:
     g, _ = _touches(nodes)
     return any(p[0] == q[0] and dep_key(p[1]) == dep_key(q[1]) and len(p[1]) == len(q[1]) and p[1] != q[1]
                for p in g for q in g)
+
+
+def in_index_reuse(nodes, depth=0) -> bool:
+    """an indexed hold whose factor tuple is not as long as its nesting depth"""
+    for n in nodes:
+        if n[0] == 'hold':
+            if any(f != 'none' and len(f) != depth for f in n[2]):
+                return True
+        elif in_index_reuse(n[2:], depth + (1 if n[0] == 'iter' else 0)):
+            return True
+    return False
 
 
 def _deps(n):
@@ -605,6 +619,98 @@ def gen_shared(rng):
     return {'pt': pt, 'channels': chans, 'gt': None, 'exact': True}
 
 
+def _for_names(spec, out=None):
+    out = [] if out is None else out
+    t = spec['t']
+    if t == 'for':
+        out.append(spec['idx'])
+    if t == 'seq':
+        for c in spec['ch']:
+            _for_names(c, out)
+    elif t != 'hold':
+        _for_names(spec['body'], out)
+    return out
+
+
+def _first_hold(spec):
+    t = spec['t']
+    if t == 'hold':
+        return spec
+    if t == 'seq':
+        return _first_hold(spec['ch'][0])
+    return _first_hold(spec['body'])
+
+
+def _rename(spec, old, new):
+    t = spec['t']
+    if t == 'hold':
+        for aff in spec['v'].values():
+            for c in aff['coef']:
+                if c[0] == old:
+                    c[0] = new
+    elif t == 'seq':
+        for c in spec['ch']:
+            _rename(c, old, new)
+    else:
+        if t == 'for' and spec['idx'] == old:
+            spec['idx'] = new
+        if t == 'map':
+            for aff in spec['pm'].values():
+                for c in aff['coef']:
+                    if c[0] == old:
+                        c[0] = new
+        _rename(spec['body'], old, new)
+
+
+def _reuse_index(spec, enclosing, rng) -> bool:
+    """rename one nested loop's index to the name of an enclosing loop; True if done"""
+    t = spec['t']
+    if t == 'hold':
+        return False
+    if t == 'seq':
+        order = list(spec['ch'])
+        rng.shuffle(order)
+        return any(_reuse_index(c, enclosing, rng) for c in order)
+    if t == 'for':
+        if enclosing and rng.random() < 0.6:
+            _rename(spec, spec['idx'], rng.choice(enclosing))
+            return True
+        return _reuse_index(spec['body'], enclosing + [spec['idx']], rng)
+    return _reuse_index(spec['body'], enclosing, rng)
+
+
+def gen_shadow(rng):
+    """scopes that already contain the loop index's name: an extra top-level parameter named like a loop index
+    (the index shadows it), optionally used by an OUTER MappingPT expression (`q := a + b*i` with the experiment
+    parameter i, around a loop over i). Judged against the default program like every case."""
+    g = Gen(rng, exact=True, p_int=0.0, zero_coef=0.0)
+    while True:
+        case = g.case(depth=rng.choice([1, 2, 2, 3]))
+        names = _for_names(case['pt'])
+        if names:
+            break
+    extra = {}
+    for n in names:
+        if rng.random() < 0.7 or not extra:
+            v = _dy(rng, -4, 4, rng.choice([1, 2, 4]))
+            extra[n] = [repr(float(v)), 'pi' if (v.denominator == 1 and rng.random() < 0.4) else 'pf']
+    case['extra'] = extra
+    if rng.random() < 0.25:
+        # a nested loop re-using the index name of an enclosing loop (inner index shadows the outer one)
+        if _reuse_index(case['pt'], [], rng):
+            return case
+    if rng.random() < 0.45:
+        i = rng.choice(list(extra))
+        q = g.fresh('q')
+        h = _first_hold(case['pt'])
+        ch = rng.choice(sorted(h['v']))
+        h['v'][ch]['coef'].append([q, _const(rng, True, nonzero=True, allow_int=False, allow_param=False)])
+        aff = {'base': _const(rng, True, allow_int=False, allow_param=False),
+               'coef': [[i, _const(rng, True, nonzero=True, allow_int=False, allow_param=False)]]}
+        case['pt'] = {'t': 'map', 'pm': {q: aff}, 'body': case['pt']}
+    return case
+
+
 def exhaustive_cases():
     """all wrapper chains of length <= 3 over {for len 1,2,3 (step +1/-2), rep 1,2} around three body shapes, plus the
     sibling shape [hold ; chain(hold)], one channel; indices always used by the innermost hold"""
@@ -738,7 +844,8 @@ def evaluate(ctx, cases, family, register=True):
             o.ast_sx = ast_to_sx(o.impl['ast'])
             nch = len(case['channels'])
             o.classes = {'pf22': in_pf22(o.ast_sx, nch), 'depth': in_depth_clash(o.ast_sx),
-                         'zerokey': in_zero_key(o.ast_sx), 'rescollision': res_collision(o.ast_sx)}
+                         'zerokey': in_zero_key(o.ast_sx), 'rescollision': res_collision(o.ast_sx),
+                         'indexreuse': in_index_reuse(o.ast_sx)}
             lines.append(sx(['c17', 'run', nch, RES, o.ast_sx]))
             slots.append((len(outs), 'run'))
             if 'hist' in o.impl:
@@ -783,7 +890,8 @@ def evaluate(ctx, cases, family, register=True):
 
 
 def _class_of(o):
-    for k, fid in (('pf22', 'PF-22'), ('depth', 'KF-C17-depth'), ('zerokey', 'KF-C17-zerokey')):
+    for k, fid in (('indexreuse', 'KF-C17-indexreuse'), ('pf22', 'PF-22'), ('depth', 'KF-C17-depth'),
+                   ('zerokey', 'KF-C17-zerokey')):
         if o.classes.get(k):
             return fid
     return None
@@ -805,7 +913,7 @@ def _decide(ctx, o, ans, family):
     fields = {f[0]: f for f in run if isinstance(f, list)}
     mcls = {k: (v == 'true') for k, v in (x for x in fields['class'][1:])}
     o.model = {'status': run[0], 'fragment': mcls.get('fragment', False)}
-    for k in ('pf22', 'depth', 'zerokey', 'rescollision'):
+    for k in ('pf22', 'depth', 'zerokey', 'rescollision', 'indexreuse'):
         if mcls[k] != o.classes[k]:
             raise core.MachineryError('class predicate %s differs between harness (%s) and Lean (%s) on %s'
                                       % (k, o.classes[k], mcls[k], sx(o.ast_sx)[:300]))
@@ -832,7 +940,8 @@ def _decide(ctx, o, ans, family):
     # --- the Lean-side spec (unrollStairs of the AST) against the default program -------------------------
     def_hist, def_time = o.default
     if not close(spec_hist, def_hist, tol) or spec_time != def_time:
-        o.verdict = 'violation'
+        # the builder's AST is wrong; only the index-reuse class (a range lost in the builder) is a known cause
+        o.verdict = 'known:KF-C17-indexreuse' if o.classes.get('indexreuse') else 'violation'
         o.why = ('the LinSpace AST built by LinSpaceBuilder does not denote the staircase of the default program: '
                  'unrollStairs(AST) = %s (T=%s), default = %s (T=%s)'
                  % (_short(spec_hist), spec_time, _short(def_hist), def_time))
@@ -1074,6 +1183,8 @@ def run(ctx: core.Ctx):
     process([gen_rep_safe(rng) for _ in range(ctx.n(150, 5000))], 'rep-safe')
     rng = ctx.fork('shared-registers')
     process([gen_shared(rng) for _ in range(ctx.n(200, 6000))], 'shared-registers')
+    rng = ctx.fork('shadowed-index')
+    process([gen_shadow(rng) for _ in range(ctx.n(200, 5000))], 'shadowed-index')
     rng = ctx.fork('random-general')
     process([Gen(rng, exact=False, p_int=0.0).case() for _ in range(ctx.n(150, 8000))], 'random-general')
     rng = ctx.fork('malformed')
